@@ -1128,6 +1128,10 @@ def einsum(*operands, out=None, **kwargs):
     else:
         out_view = out
 
+    # bare arrays: with optimize=True NumPy contracts pairwise through
+    # tensordot / multiply, which would dispatch back to unyt and fold unit
+    # ratios (km * 1/m) into the numbers before ret_units is applied again
+    operands = [np.asarray(op) for op in operands]
     res = np.einsum._implementation(subscripts, *operands, out=out_view, **kwargs)
 
     if getattr(out, "units", None) is not None:
